@@ -1,4 +1,5 @@
 import Whv.Lemmas.Processor
+import Whv.Gen.Proc
 /-!
 # C13 — no untrusted input can crash the signing pipeline
 
@@ -44,6 +45,17 @@ theorem nil_set_entry_not_inv : ¬ Inv { gs := none, agg := [([1], { firstObserv
   intro h
   have := h.2 (by simp)
   simp at this
+
+/-- The model's `step` dispatches events to handlers exactly as the `select` of `Processor.Run` does in the source (arms
+re-extracted from processor.go on every run): guardian-set updates assign `p.gs` (and publish it to the shared state), chain
+messages go to `handleMessage`, injections to `handleInjection`, gossiped observations (and the own loopback) to
+`handleObservation`, inbound signed VAAs to `handleInboundSignedVAAWithQuorum`, cleanup ticks to `handleCleanup`; there is no
+other arm. The harness calls the handlers directly; this is what licenses that. -/
+theorem run_dispatch_as_modelled :
+    Whv.Gen.Proc.runArms =
+      [("ctx.Done()", "return"), ("p.setC", "set:gst"), ("p.lockC", "handleMessage"), ("p.injectC", "handleInjection"),
+       ("p.obsvC", "handleObservation"), ("p.signedInC", "handleInboundSignedVAAWithQuorum"), ("p.cleanup.C", "handleCleanup")] := by
+  decide
 
 /-- Non-vacuity: an oracle meeting the assumptions exists, and a concrete run with an empty-payload message,
 its loopback, a re-observation and a cleanup tick goes through. -/
